@@ -2241,3 +2241,7 @@ m("C03", "unquoted-value-stops-at-slash", "parser.py",
 m("C03", "unquoted-value-stops-at-quote", "parser.py",
   """    r'(?P<alt_value>(?:[^\\s>/]|/(?!>))+))|'""",
   """    r'(?P<alt_value>(?:[^\\s>/\\'"]|/(?!>))+))|'""")
+
+m("C11", "valueless-attribute-plain-value", "parser.py",
+  "            attr['value'] = simple_value\n",
+  "            attr['value'] = ''\n")
